@@ -51,6 +51,9 @@ impl RuleMaker for RegexRule {
         let expression = cleanup_unrecognized_escape_sequences(expression);
         let expression = escape_misused_repetition_quantifier(&expression);
         let expression = escape_misused_character_class(&expression);
+        // must be a regular expression by itself: `a)|(b` would get out of the
+        // group that anchors it to the whole line
+        ByteRegex::new(&expression)?;
         let regex = ByteRegex::new(&format!("^(?:{})$", expression))?;
         Ok(Box::new(RegexRule(expression, regex)))
     }
